@@ -1,6 +1,6 @@
 //@target crates/trippy-core/src/net/common.rs
 //@crate trippy-core
-// ErrorMapper match tables (C09 O5): exhaustive over the errno values of the platform (loop free => complete).
+// ErrorMapper match tables (C09 O5): exhaustive over the errno values of the platform and the four IoError variants (loop free => complete).
 #[cfg(kani)]
 mod verif_kani_common {
     use super::*;
@@ -14,13 +14,26 @@ mod verif_kani_common {
     const ENETUNREACH: i32 = 101;
     const EADDRINUSE: i32 = 98;
 
-    fn mk(code: i32) -> Error { Error::IoError(IoError::Bind(io::Error::from_raw_os_error(code), ADDR)) }
+    /// the io error as any of the four IoError variants (bind / connect / sendto / other operation): the mappers
+    /// look at the error KIND, never at the operation that failed
+    fn mk_v(code: i32, variant: u8) -> Error {
+        let e = io::Error::from_raw_os_error(code);
+        Error::IoError(match variant {
+            0 => IoError::Bind(e, ADDR),
+            1 => IoError::Connect(e, ADDR),
+            2 => IoError::SendTo(e, ADDR),
+            _ => IoError::Other(e, crate::error::IoOperation::SetTtl),
+        })
+    }
 
     //@harness k_error_mapper_tables mode=complete timeout=900
     #[kani::proof]
     fn k_error_mapper_tables() {
         let code: i32 = kani::any();
         kani::assume(code >= 1 && code <= 133);
+        let variant: u8 = kani::any();
+        kani::assume(variant < 4);
+        let mk = |c: i32| mk_v(c, variant);
         // in_progress: only EINPROGRESS becomes Ok, every other error is returned unchanged
         match ErrorMapper::in_progress(mk(code)) {
             Ok(()) => assert!(code == EINPROGRESS),
